@@ -10,10 +10,10 @@ from .cli import props
 ENGINES = [
     {"name": "E1-ENUM", "path": "mc/runner.py + mc/universe.py", "kind_free_text": "bounded-exhaustive enumeration of inputs/configurations on the real code, 16-way parallel"},
     {"name": "E2-HIST", "path": "mc/hist.py", "kind_free_text": "explicit-state BFS over operation histories; transition function = the real library method; states = canonical snapshots"},
-    {"name": "E3-SCHED", "path": "mc/sched.py", "kind_free_text": "stateless exploration of all interleavings of the real SumTrees master/worker code under a cooperative scheduler replacing multiprocessing"},
+    {"name": "E3-SCHED", "path": "mc/sched.py + mc/sched_explore.py + mc/sumtrees_harness.py", "kind_free_text": "stateless exploration of all interleavings of the real SumTrees master/worker code under a cooperative scheduler replacing multiprocessing"},
     {"name": "E4-CHOICE", "path": "mc/choice.py", "kind_free_text": "exhaustive exploration of RNG answer sequences (environment choices) with iterative deviation bounding"},
-    {"name": "E5-FAULT", "path": "mc/fault.py", "kind_free_text": "every prefix / single edit / short string of documents through every reader entry point under a deterministic step budget"},
-    {"name": "E6-TLC", "path": "mc/tla/", "kind_free_text": "TLA+ model of the SumTrees work-queue protocol explored by TLC; every model trace class replayed on the implementation via E3"},
+    {"name": "E5-FAULT", "path": "props/C20.py + mc/budget.py", "kind_free_text": "every prefix / single edit / short string of documents through every reader entry point under a deterministic step budget"},
+    {"name": "E6-TLC", "path": "mc/tla/SumTreesPar.tla + mc/tlc.py", "kind_free_text": "TLA+ model of the SumTrees work-queue protocol explored by TLC; every model trace class replayed on the implementation via E3"},
 ]
 
 
